@@ -90,7 +90,7 @@ def outcome(fn, *a, **kw):
 
 # -- budgeted execution (logical steps, never wall-clock) -----------------------------------
 _MON = None
-WALK_FILES = ("walkers.py", "visitor.py", "backend.py", "result.py", "used_qubit_visitor.py")
+WALK_FILES = ("walkers.py", "visitor.py", "backend.py", "result.py", "used_qubit_visitor.py", "register.py")
 
 
 def step_monitor():
